@@ -11,7 +11,10 @@ import PdtVerif.Model.Beam
 * `completeFrom` — all complete sequences with finite score (ended by their first eos, or of
   the full length), the oracle for the completeness clause.
 
-Core Lean only (the driver evaluates `chain` and `completeFrom`).
+* `Score.apart`, `sepB` — "this selection is decided by a margin of more than `m`", the hypothesis
+  of the skeleton-stability theorems.
+
+Core Lean only (the driver evaluates `chain`, `completeFrom` and `sepB`).
 -/
 namespace PdtVerif.Beam
 
@@ -54,5 +57,20 @@ def completeFrom (spec : List Int → List Score) (V : Nat) (eos : Option Int) :
       if (tokScore (spec pre) (v : Int)).isNone then []
       else if eos = some (v : Int) then [pre ++ [(v : Int)]]
       else completeFrom spec V eos T (pre ++ [(v : Int)])
+
+/-! ### Margins (used by `C04_skeleton_stable`; evaluated by the driver on every selection) -/
+
+/-- `a` lies more than `m` above `b` (`-inf` lies below everything finite). -/
+def Score.apart (m : Rat) : Score → Score → Bool
+  | some x, some y => decide (y + m < x)
+  | some _, none => true
+  | none, _ => false
+
+/-- Every selected finite candidate is more than `m` away from every other candidate: the
+selection is decided by a margin of more than `m`. (Executable.) -/
+def sepB (m : Rat) (c : List Score) (inds : List Nat) : Bool :=
+  inds.all fun i => (c.getD i none).isNone || (List.range c.length).all fun j =>
+    j == i || Score.apart m (c.getD i none) (c.getD j none)
+      || Score.apart m (c.getD j none) (c.getD i none)
 
 end PdtVerif.Beam
